@@ -359,7 +359,7 @@ func (rm *RegistrationManager) parseRegMessage(msg []byte) ([]*DecoyRegistration
 func (rm *RegistrationManager) NewRegistration(c2s *pb.ClientToStation, conjureKeys *core.ConjureSharedKeys, includeV6 bool, registrationSource *pb.RegistrationSource) (*DecoyRegistration, error) {
 	gen := uint(c2s.GetDecoyListGeneration())
 	clientLibVer := uint(c2s.GetClientLibVersion())
-	phantomAddr, err := rm.PhantomSelector.Select(
+	phantomAddr, err := rm.GetPhantomSelector().Select(
 		conjureKeys.ConjureSeed, gen, clientLibVer, includeV6)
 
 	if err != nil {
@@ -497,11 +497,11 @@ func (rm *RegistrationManager) NewRegistrationC2SWrapper(c2sw *pb.C2SWrapper, in
 	}
 
 	reg.registrationAddr = clientAddr
-	reg.regCC, err = rm.GeoIP.CC(reg.registrationAddr)
+	reg.regCC, err = rm.GetGeoIP().CC(reg.registrationAddr)
 	if err != nil {
 		return nil, fmt.Errorf("failed geoip cc lookup: %w", generalizeErr(err))
 	}
-	reg.regASN, err = rm.GeoIP.ASN(reg.registrationAddr)
+	reg.regASN, err = rm.GetGeoIP().ASN(reg.registrationAddr)
 	if err != nil {
 		return nil, fmt.Errorf("failed geoip asn lookup: %w", generalizeErr(err))
 	}
@@ -564,7 +564,7 @@ func handleConnectingTpReg(regManager *RegistrationManager, reg *DecoyRegistrati
 			go func(transport ConnectingTransport) {
 				defer cancelFunc()
 
-				cc, err := regManager.GeoIP.CC(reg.registrationAddr)
+				cc, err := regManager.GetGeoIP().CC(reg.registrationAddr)
 				if err != nil {
 					logger.Errorln("Failed to get CC:", generalizeErr(err))
 					return
@@ -572,7 +572,7 @@ func handleConnectingTpReg(regManager *RegistrationManager, reg *DecoyRegistrati
 
 				var asn uint = 0
 				if cc != "unk" {
-					asn, err = regManager.GeoIP.ASN(reg.registrationAddr)
+					asn, err = regManager.GetGeoIP().ASN(reg.registrationAddr)
 					if err != nil {
 						logger.Errorln("Failed to get ASN:", generalizeErr(err))
 						return
